@@ -1,22 +1,23 @@
 SPECIFICATION ISpec
 CONSTANTS
-  NP = 2
+  NP = 3
   Gens = 2
   Thr = 2
-  NT = 3
-  MaxFlush = 0
+  NT = 2
+  MaxFlush = 1
   MaxWait = 1
   MaxTick = 1
   MaxAdv = 1
-  MaxPanic = 1
-  Fix = "none"
+  MaxPanic = 0
+  Fix = "inflight"
   Routed = FALSE
   Hook = FALSE
   Steer = TRUE
   Emit = TRUE
-  Sizes = {1}
-  Targets = {}
-  Canon = FALSE
-INVARIANTS PrintFinal
+  Sizes = {1, 2}
+  Targets = {"quitRefused"}
+  Canon = TRUE
+INVARIANTS PrintHits
+CONSTRAINT GoalDirected
 VIEW View
 CHECK_DEADLOCK FALSE
